@@ -183,6 +183,8 @@ func init() {
 				return c05Window(filepath.Join(dir, ".DIR.big"), ai(args[0][0]) == 14, args)
 			case 15:
 				return c05Sparse(dir, args)
+			case 16: // histories on different files by several goroutines of the process at once (c05conc.go)
+				return c05Concurrent(dir, args)
 			case 10: // the delete tag the build uses
 				return okb([]byte(ptttype.FN_SAFEDEL))
 			}
@@ -321,7 +323,8 @@ var c05BigKey string // "<cnt>/<seed>" of the file currently on disk
 
 // op 13: [cnt start n desc] [seed] -> 0 k idx*            (the Aid of every summary GetRecords returned)
 // op 14: same                      -> 0 k first last H     H = sha256 over (idx as 8 bytes LE, the 128 bytes of the
-//                                                          returned header) of every summary in order, as a decimal number
+//
+//	returned header) of every summary in order, as a decimal number
 func c05Window(fn string, digest bool, args [][]string) []string {
 	if len(args) != 3 || len(args[1]) != 4 || len(args[2]) != 1 {
 		return []string{"9"}
